@@ -103,4 +103,32 @@ PROPS = {
                     "algebra_refines_lists is checked per operation through the verified-by-computation normal form `sameProgram`; the statement that equal normal forms unroll to equal streams is not yet proved"],
         "assumptions": ["coordinates are dyadic so binary64 arithmetic is exact; with astronomically large repeat counts only the integer counts are compared"],
     },
+    "C02": {
+        "lean_modules": ["StimModel.Props.C02", "StimModel.Core.FrameRel", "StimModel.Generated.FrameThms", "StimModel.Generated.GateThms"],
+        "areas": [
+            {"area": "gatetab", "n": 1, "extra": ["Frame"]},
+            {"area": "fsim", "n": {"quick": 500, "thorough": 10000}, "replayable": True},
+        ],
+        "rule": "noisy generated circuits (every gate, noise channel incl. heralded and correlated ones with p in {0, 1/4, 1}, measurement-flip arguments, feedback, sweep-controlled gates, "
+                "REPEAT) and QEC-like circuits; per circuit 1..130 shots from FrameSimulator (3 widths) and 3..257 shots from sample_batch_measurements: every record must lie in the affine space "
+                "reference + span(fault columns) computed by the Lean frame model (Gaussian elimination), and with 257 shots every allowed direction must have been taken; outcome-deterministic "
+                "circuits: in-memory vs forced-streaming bytes identical for 6 formats x shot counts {1,64,192,320}; distinct = distinct circuit texts",
+        "trusted_base": ["the PRNG and the statistical spanning argument (false-alarm probability < 1e-12 per case)"],
+        "partial": ["fsim_shot_valid (induction over the instruction list) is assembled only up to the three step theorems frame_noise/forced/free",
+                    "fsim_free_surjective (uniformity) is checked only through the spanning test; unbiasedness statistics belong to C05"],
+        "assumptions": ["disjoint / heralded / correlated channels are over-approximated by the span of their Paulis (sound for the validity check)"],
+    },
+    "C04": {
+        "lean_modules": ["StimModel.Props.C04"],
+        "areas": [
+            {"area": "fsim", "n": {"quick": 500, "thorough": 10000}, "replayable": True},
+        ],
+        "rule": "for every shot of the fsim area the detection events and observable flips reported for that same shot are recomputed in Lean as XORs of the shot's measurement flips "
+                "(relative to the implementation's reference sample, itself checked to be a possible noiseless record); measurements_to_detection_events on sampled and adversarial "
+                "measurement tables with per-shot sweep bits, with and without the reference sample, for the parities that are deterministic in the noiseless circuit; distinct = distinct circuit texts",
+        "trusted_base": [],
+        "partial": ["the CLI option matrix of stim detect / stim m2d (append/prepend/obs_out x formats x streaming) is not yet driven as subprocesses",
+                    "detector_is_parity for the inline evaluation inside the frame model is validated by correspondence"],
+        "assumptions": ["Pauli targets in OBSERVABLE_INCLUDE are a documented exception for m2d; their sampled contribution is not compared"],
+    },
 }
